@@ -141,6 +141,14 @@ def check_case(mod, case):
                 return ('replace-result-hash', str(nrep))
         except TypeError:
             pass    # ('NEW', i) markers are hashable; other fields were hashed above
+    # boundary values: a field can be replaced by None and by every other falsy value
+    for f in fields:
+        for val in (None, 0, False, '', [], ()):
+            r = a._replace(**{f: val})
+            if getattr(r, f) is not val and getattr(r, f) != val or type(getattr(r, f)) is not type(val):
+                return ('replace-by-falsy-value-ignored', '%s=%r gives %r' % (f, val, getattr(r, f)))
+            if any(getattr(r, g) is not getattr(a, g) for g in fields if g != f):
+                return ('replace-other-field-changed', f)
     if trees.snapshot(a) != snap:
         return ('replace-mutates-original', '')
     # --- deepcopy
